@@ -9,7 +9,6 @@ use soroban_sdk::{Bytes, BytesN, Env, String};
 // ------------------------------------------------------------------ layer 1: kernels
 // HARNESS props=C10,C04,C05 tier=quick profile=abi_k mode=strict shape="to_i128 over all 2^256 values"
 #[kani::proof]
-#[kani::unwind(40)]
 fn c10_to_i128() {
     let limbs: [u64; 4] = [kani::any(), kani::any(), kani::any(), kani::any()];
     let v = Uint::<256, 4>::from_limbs(limbs);
@@ -17,10 +16,8 @@ fn c10_to_i128() {
     let fits = limbs[2] == 0 && limbs[3] == 0 && (limbs[1] >> 63) == 0;
     match r {
         Ok(x) => {
-            kani::assert(fits, "VERIF:C10:amounts above 2^127-1 are rejected");
-            kani::assert(fits, "VERIF:C04:an inbound amount of 2^127 or more is rejected");
-            kani::assert(x >= 0 && (x as u128) == ((limbs[1] as u128) << 64 | limbs[0] as u128), "VERIF:C05:the amount credited inbound is exactly the announced 256-bit amount");
-            kani::assert(x >= 0 && (x as u128) == ((limbs[1] as u128) << 64 | limbs[0] as u128), "VERIF:C10:an accepted amount is converted exactly");
+            kani::assert(fits, "VERIF:C10,C04,C05:amounts above 2^127-1 are rejected");
+            kani::assert(x >= 0 && (x as u128) == ((limbs[1] as u128) << 64 | limbs[0] as u128), "VERIF:C10,C05:an accepted amount is converted exactly (what is credited inbound is the announced 256-bit amount)");
             kani::cover!(x == i128::MAX, "VERIF:reach:largest amount");
         }
         Err(e) => {
@@ -33,7 +30,6 @@ fn c10_to_i128() {
 
 // HARNESS props=C10 tier=quick profile=abi_k mode=strict shape="from_vec / into_vec: empty <-> absent, <=3 bytes"
 #[kani::proof]
-#[kani::unwind(70)]
 fn c10_optional_bytes() {
     let env = Env::default();
     let b = any::bytes(3);
@@ -147,7 +143,6 @@ fn c10_encode_transfer(ls: usize, ld: usize, ldata: usize) {
 }
 // HARNESS props=C10 tier=quick profile=abi_e mode=strict shape="InterchainTransfer: source 1 byte, destination 1 byte, no data; token id 2 symbolic bytes; amount 0..2^127-1"
 #[kani::proof]
-#[kani::unwind(420)]
 fn c10_encode_transfer_1_1_0() {
     c10_encode_transfer(1, 1, 0)
 }
@@ -176,14 +171,12 @@ fn c10_roundtrip_transfer(ls: usize, ld: usize, ldata: usize) {
 }
 // HARNESS props=C10 tier=quick profile=abi_e mode=strict shape="round trip InterchainTransfer: source 1, destination 1, no data"
 #[kani::proof]
-#[kani::unwind(420)]
 fn c10_roundtrip_transfer_1_1_0() {
     c10_roundtrip_transfer(1, 1, 0)
 }
 
 // HARNESS props=C10,C04 tier=quick profile=abi_k shape="get_message_type over all 2^256 first words, and every length below 32"
 #[kani::proof]
-#[kani::unwind(70)]
 fn c10_get_message_type() {
     let w: [u8; 32] = kani::any();
     let len: usize = kani::any();
@@ -209,7 +202,7 @@ fn c10_get_message_type() {
     let canonical = len >= 32 && hi_zero && w[31] <= 4;
     match r {
         Ok(t) => {
-            kani::assert(canonical, "VERIF:C10:only the canonical encodings of the five message types are accepted");
+            kani::assert(canonical, "VERIF:C10,C04:only the canonical encodings of the five message types are accepted");
             let want: u8 = match t {
                 MessageType::InterchainTransfer => 0,
                 MessageType::DeployInterchainToken => 1,
@@ -218,8 +211,7 @@ fn c10_get_message_type() {
                 MessageType::ReceiveFromHub => 4,
                 _ => 255,
             };
-            kani::assert(want == w[31], "VERIF:C10:the message type is read from the first word exactly");
-            kani::assert(canonical && want == w[31], "VERIF:C04:the outer message type is read exactly from the payload's first word (only canonical tags)");
+            kani::assert(want == w[31], "VERIF:C10,C04:the message type is read from the first word exactly");
             kani::cover!(w[31] == 4, "VERIF:reach:receive-from-hub tag");
         }
         Err(e) => {
@@ -277,7 +269,6 @@ fn utf8_ok(b: &[u8; 4], n: usize) -> bool {
 }
 // HARNESS props=C10 tier=quick profile=abi_k shape="to_std_string for every byte string of length <= 4 (multi-byte scalars included)"
 #[kani::proof]
-#[kani::unwind(70)]
 fn c10_to_std_string() {
     let env = Env::default();
     let raw: [u8; 4] = kani::any();
@@ -314,7 +305,6 @@ fn c10_to_std_string() {
 
 // PROBE (not registered: no HARNESS line): decode of a reference-encoded transfer
 #[kani::proof]
-#[kani::unwind(420)]
 fn probe_decode_transfer() {
     let env = Env::default();
     let token_id = any::b32(1);
